@@ -93,6 +93,17 @@ type verifWorld struct {
 	shots    []*verifShot
 	onTar    func(username string, args []string) *exec.Cmd
 	onLookup func(name string)
+	// faultsOff: this run injects nothing (no damage, no malformed members,
+	// no reader or context faults); drawn once per run
+	faultsOff bool
+}
+
+// fd is Draw for fault decisions: 0 (no fault) when faults are off.
+func (w *verifWorld) fd(label string, n int) int {
+	if w.faultsOff {
+		return 0
+	}
+	return w.c.Draw(label, n)
 }
 
 func verifHarnessFail(format string, args ...interface{}) {
@@ -148,6 +159,7 @@ func verifRunC32(c *verifsim.Ctx) {
 			return us, nil
 		}),
 		backend.MockTarAsUser(func(username string, args ...string) *exec.Cmd {
+			c.Count("tar-invocations")
 			if w.onTar != nil {
 				return w.onTar(username, args)
 			}
@@ -160,6 +172,7 @@ func verifRunC32(c *verifsim.Ctx) {
 		}
 	}()
 
+	w.faultsOff = c.Draw("faults", 4) == 0
 	w.setup()
 	nops := 1 + c.Draw("nops", 4)
 	for i := 0; i < nops && len(c.Violations) == 0; i++ {
@@ -423,7 +436,7 @@ func (w *verifWorld) opSave() {
 			usernames = append(usernames, u.name)
 		}
 	}
-	if c.Draw("save-real", 6) == 5 {
+	if c.Draw("save-real", 8) == 7 {
 		w.saveReal(sn, id, usernames)
 	} else {
 		w.saveCrafted(sn, id, usernames)
@@ -563,7 +576,7 @@ func verifScaled(c *verifsim.Ctx, label string, n int) int {
 // a label ("" = left alone).
 func (w *verifWorld) corrupt(sh *verifShot) string {
 	c := w.c
-	kind := c.Draw("corrupt", 17) - 5
+	kind := w.fd("corrupt", 17) - 5
 	if kind <= 0 {
 		return ""
 	}
@@ -816,7 +829,10 @@ func (w *verifWorld) opRestore() {
 	}
 
 	// the check-snapshot task that precedes restore-snapshot in snapd
-	mode := c.Draw("mode", 6) - 2 // <2: restore directly; 2: check first; 3: check with a context cancelled on the way
+	mode := c.Draw("mode", 5) - 2
+	if mode == 2 && w.fd("check-cancelled", 2) == 1 {
+		mode = 3
+	} // <2: restore directly; 2: check first; 3: check with a context cancelled on the way
 	if mode >= 2 {
 		cc := &verifCountCtx{Context: context.Background()}
 		cc.Context, cc.cancel = context.WithCancel(context.Background())
@@ -855,7 +871,7 @@ func (w *verifWorld) opRestore() {
 	}
 
 	// fault plan of the restore itself
-	fault := c.Draw("restore-fault", 6) // 0,1,2: none
+	fault := w.fd("restore-fault", 6) // 0,1,2: none
 	faultAt := 0
 	if fault >= 4 && len(entries) > 0 {
 		faultAt = c.Draw("fault-at", len(entries))
@@ -995,9 +1011,6 @@ func (w *verifWorld) opRestore() {
 			break
 		}
 		c.Count("restore-order-retries")
-		if os.Getenv("VERIF_C32_DEBUG") != "" {
-			fmt.Fprintf(os.Stderr, "retry %d: order=%v pos=%d tarCalls=%d rerr=%v iterOpen=%v iterEvent=%v\n", attempts, order, pos, tarCalls, rerr, iterOpen, iterEvent)
-		}
 		if err := verifSyncDisk(w.top, w.snapsDir, before); err != nil {
 			verifHarnessFail("cannot roll back the scratch root: %v", err)
 		}
@@ -1016,6 +1029,38 @@ func (w *verifWorld) opRestore() {
 		c.Count("probe:restore-failed")
 		if tarCalls >= 2 {
 			c.Count("probe:restore-failed-after-an-archive-was-moved-in")
+		}
+		if damage == "tar-damaged-digest-matching" && mismatch == "" && fired == "" && tarCalls > 0 {
+			c.Count("probe:tar-failed-part-way-under-matching-digest")
+		}
+		// why, as a counter only (tar's and gzip's complaints race for the
+		// first line of stderr, so the text stays out of the event log)
+		why := "other"
+		for _, k := range []string{"context canceled", "cannot unpack archive", "tar failed", "expected size", "expected hash", "not a directory", "missing archive member", "no such file or directory", "zip: "} {
+			if strings.Contains(rerr.Error(), k) {
+				why = strings.TrimSuffix(strings.ReplaceAll(k, " ", "-"), ":-")
+				break
+			}
+		}
+		c.Count("restore-error:" + why)
+		if damage == "" && mismatch == "" && fired == "" {
+			c.Count("note:undamaged-restore-failed:" + why)
+			// nothing wrong with the snapshot and no fault: the existing data
+			// stood in the way, or (see NOTES.md) the snapshot holds no
+			// revisioned directory while a different current revision was given
+			c.Count("note:undamaged-restore-failed")
+		}
+		for _, e := range verifDiff(before, after, false) {
+			if e.what != "created (d)" {
+				continue
+			}
+			for _, p := range parents {
+				if strings.HasPrefix(p, e.path+"/") {
+					// tolerated (see verifSplitDiff), but worth knowing
+					c.Count("note:failed-restore-left-a-new-empty-directory-above-the-data-directory")
+					break
+				}
+			}
 		}
 		_, data, outside := verifSplitDiff(verifDiff(before, after, false), nil, parents)
 		if len(data) > 0 {
@@ -1173,37 +1218,60 @@ func (x *verifCountCtx) Err() error {
 // ---------------------------------------------------------------------------
 // import
 
-var verifTails = []string{"esc.zip", "etc/passwd", "var/lib/snapd/state.json", "var/snap/alpha/common/a", "home/ann/.profile", "esc_1.zip", "outside-root.txt", "var/snap/alpha_new.zip"}
-
+// importName makes up a member name. Most kinds aim somewhere: "ups" parent
+// elements lead from the snapshots directory to one of its ancestors (never
+// above the scratch directory), and the tail names a new file there or a
+// file that exists below it (system files, snap data), so that a name that
+// gets through is seen creating or modifying something.
 func (w *verifWorld) importName(good string) string {
 	c := w.c
 	prefix := []string{"5", "1", "", "x", "007", "99999999999999999999"}[c.Draw("name-prefix", 6)]
-	ups := strings.Repeat("../", 1+c.Draw("name-ups", 6))
-	tail := verifTails[c.Draw("name-tail", len(verifTails))]
-	switch c.Draw("name-kind", 14) {
+	nups := 1 + c.Draw("name-ups", 6)
+	ups := strings.Repeat("../", nups)
+	landing := w.snapsDir
+	for i := 1; i < nups; i++ {
+		landing = filepath.Dir(landing)
+	}
+	tail := "esc.zip"
+	switch c.Draw("name-tail", 4) {
+	case 1:
+		tail = "esc_1.zip"
+	case 2, 3:
+		var files []string
+		img := verifReadTree(landing, w.snapsDir)
+		for _, p := range verifSortedPaths(img) {
+			if img[p].kind == 'f' {
+				files = append(files, p)
+			}
+		}
+		if len(files) > 0 {
+			tail = files[c.Draw("name-target", len(files))]
+		}
+	}
+	switch c.Draw("name-kind", 16) {
 	case 0:
 		return prefix + "_" + strings.SplitN(good+"_x", "_", 2)[1]
-	case 1, 2:
+	case 1, 2, 3, 4:
 		return prefix + "_a/" + ups + tail
-	case 3:
-		return ups + tail
-	case 4:
-		return prefix + "_/" + tail
 	case 5:
-		return "/" + tail
+		return ups + tail
 	case 6:
-		return prefix + "_.."
+		return prefix + "_/" + tail
 	case 7:
-		return prefix + "_a/.."
+		return "/" + tail
 	case 8:
-		return prefix + "_sub/dir/x.zip"
+		return prefix + "_.."
 	case 9:
-		return "nounderscore.zip"
+		return prefix + "_a/.."
 	case 10:
-		return prefix + "_" + strings.Repeat("n", 150) + "/" + ups + tail
+		return prefix + "_sub/dir/x.zip"
 	case 11:
-		return prefix + "_a/./" + strings.TrimSuffix(ups, "/") + "/" + tail
+		return "nounderscore.zip"
 	case 12:
+		return prefix + "_" + strings.Repeat("n", 150) + "/" + ups + tail
+	case 13:
+		return prefix + "_a/./" + strings.TrimSuffix(ups, "/") + "/" + tail
+	case 14:
 		return prefix + "_" + strings.TrimSuffix(ups, "/")
 	default:
 		return []string{"", "_", prefix + "_importing", prefix + "_", "..", "."}[c.Draw("name-odd", 6)]
@@ -1219,6 +1287,9 @@ func (w *verifWorld) opImport() {
 	var members []verifTarMember
 	var pristine []byte
 	src := c.Draw("import-src", 4)
+	if w.faultsOff && src == 3 {
+		src = 0
+	}
 	var srcShots []*verifShot
 	if len(w.shots) > 0 {
 		pick := w.shots[c.Draw("import-set", len(w.shots))]
@@ -1280,7 +1351,7 @@ func (w *verifWorld) opImport() {
 	}
 	mutated := 0
 	if src != 3 {
-		nmut := c.Draw("member-mutations", 6) - 2
+		nmut := w.fd("member-mutations", 6) - 2
 		for i := 0; i < nmut && len(members) > 0; i++ {
 			mi := c.Draw("mut-member", len(members))
 			m := &members[mi]
@@ -1342,7 +1413,7 @@ func (w *verifWorld) opImport() {
 	} else {
 		stream = verifTarStream(members, 2)
 	}
-	switch c.Draw("stream-mutation", 12) - 4 {
+	switch w.fd("stream-mutation", 12) - 4 {
 	case 3:
 		stream = stream[:verifScaled(c, "cut-at", len(stream))]
 		w.fault("stream-truncated")
@@ -1370,7 +1441,7 @@ func (w *verifWorld) opImport() {
 	if rd.chunk == 1 && len(stream) > 20000 {
 		rd.chunk = 13
 	}
-	switch c.Draw("reader-fault", 8) - 3 {
+	switch w.fd("reader-fault", 8) - 3 {
 	case 3:
 		rd.failAt = verifScaled(c, "fail-at", len(stream))
 	case 4:
@@ -1378,7 +1449,7 @@ func (w *verifWorld) opImport() {
 	}
 
 	id := w.nextID()
-	switch c.Draw("import-id", 5) {
+	switch w.fd("import-id", 5) {
 	case 3:
 		if len(w.shots) > 0 {
 			id = w.shots[c.Draw("import-id-of", len(w.shots))].id
@@ -1391,14 +1462,14 @@ func (w *verifWorld) opImport() {
 	if c.Draw("import-flags", 2) == 1 {
 		flags = &backend.ImportFlags{NoDuplicatedImportCheck: true}
 	}
-	if c.Draw("lock-present", 10) == 9 {
+	if w.fd("lock-present", 10) == 9 {
 		os.MkdirAll(w.snapsDir, 0700)
 		os.WriteFile(filepath.Join(w.snapsDir, fmt.Sprintf("%d_importing", id)), nil, 0644)
 		w.fault("import-already-in-progress")
 	}
 	cc := &verifCountCtx{}
 	cc.Context, cc.cancel = context.WithCancel(context.Background())
-	switch c.Draw("import-ctx", 8) {
+	switch w.fd("import-ctx", 8) {
 	case 6:
 		cc.cancel()
 	case 7:
@@ -1406,9 +1477,20 @@ func (w *verifWorld) opImport() {
 	}
 
 	before := verifReadTree(w.top, w.snapsDir)
+	inside := verifReadTree(w.snapsDir, "")
 	names, err := backend.Import(cc, id, rd, flags)
 	cc.cancel()
 	after := verifReadTree(w.top, w.snapsDir)
+	if err != nil {
+		// not part of the property (it is inside the snapshots directory),
+		// recorded for NOTES.md: files a failed import leaves behind
+		for _, e := range verifDiff(inside, verifReadTree(w.snapsDir, ""), false) {
+			if strings.HasPrefix(e.what, "created") {
+				c.Count("note:failed-import-left-a-file-in-the-snapshots-directory")
+				break
+			}
+		}
+	}
 	if rd.fired != "" {
 		w.fault(rd.fired)
 	}
@@ -1452,7 +1534,14 @@ func (w *verifWorld) opImport() {
 	}
 
 	// pick up what was imported, so that later operations restore from it
+	nshots := len(w.shots)
 	w.refresh()
+	if err != nil && len(w.shots) < nshots {
+		// inside the snapshots directory, so not this property's business:
+		// a failed import into a set id that is in use removes the
+		// snapshots that were there
+		c.Count("note:failed-import-into-used-set-id-removed-existing-snapshots")
+	}
 	if err == nil {
 		ents, _ := os.ReadDir(w.snapsDir)
 		for _, e := range ents {
@@ -1504,7 +1593,7 @@ func (w *verifWorld) opRestart() {
 	c := w.c
 	w.now = w.now.Add(time.Duration(c.Draw("clock-step", 200000)-3600) * time.Second)
 	os.MkdirAll(w.snapsDir, 0700)
-	n := c.Draw("leftovers", 4)
+	n := w.fd("leftovers", 4)
 	for i := 0; i < n; i++ {
 		id := uint64(1 + c.Draw("leftover-id", 6))
 		switch c.Draw("leftover-kind", 5) {
